@@ -5,7 +5,7 @@
 including the error cases (empty input, values out of range, missing keys, wrong types); the two answers
 are compared as value-or-exception-class (and, for the reader's coroutines, the bytes left on the stream).
 
-    pycode.check(res, rng, tier, groups)      groups ⊆ {frame, schedule, uid, params, requests, reader}
+    pycode.check(res, rng, tier, groups)      groups ⊆ {frame, schedule, uid, params, requests, reader, structparams}
 
 is called at the start of the harness of the properties concerned; a difference is a `corr` failure
 ("the translated definition does not mean what the Python function does": the translator / prelude is wrong,
@@ -41,7 +41,19 @@ def enc_scalar(v):
     raise TypeError(v)
 
 
+class Inst:
+    """the instance a stateful method is called on: `atom` is what the driver parses (`S<attr>=<scalar>,…` or
+    `H<frame.handler>`), `attrs` / `handler` what the real object gets"""
+    def __init__(self, atom, attrs=None, handler="absent"):
+        self.atom, self.attrs, self.handler = atom, attrs or {}, handler
+
+    def __repr__(self):
+        return f"Inst({self.atom})"
+
+
 def enc(v):
+    if isinstance(v, Inst):
+        return v.atom
     if isinstance(v, list):
         return "L" + ",".join(enc_scalar(x) for x in v)
     if isinstance(v, tuple):
@@ -69,7 +81,9 @@ def show(v):
     if isinstance(v, tuple):
         return "(" + ",".join(show(x) for x in v) + ")"
     if isinstance(v, dict):
-        return "{" + ",".join(hexs(k.encode()) + "=" + show(x) for k, x in v.items()) + "}"
+        if all(isinstance(k, str) for k in v):
+            return "{" + ",".join(hexs(k.encode()) + "=" + show(x) for k, x in v.items()) + "}"
+        return "{" + ",".join(show(k) + "=" + show(x) for k, x in v.items()) + "}"
     if isinstance(v, Frame):
         # what Frame.create was called with (the translated primitive records its keyword arguments)
         return ("Frame{" + f"frame_type={int(v.frame_type)},recipient={show(v.recipient)},sender={show(v.sender)},"
@@ -276,7 +290,121 @@ def streams(rng, quick):
     return out
 
 
-GROUPS = {"frame": cases_frame, "schedule": cases_schedule, "uid": cases_uid, "params": cases_params, "requests": cases_requests}
+# ---------------------------------------------------------------------------------------------- payload decoders
+
+def make_struct(cls, inst):
+    """the real structure object for an instance atom"""
+    import types
+    from pyplumio.helpers.event_manager import EventManager
+    frame = None
+    if inst.handler != "absent":
+        dev = None
+        if inst.handler is not None:
+            dev = EventManager()
+            dev.data = dict(inst.handler)
+        frame = types.SimpleNamespace(handler=dev)
+    obj = cls(frame)
+    for k, v in inst.attrs.items():
+        setattr(obj, k, v)
+    return obj
+
+
+def method(cls, name, as_list=False):
+    def fn(inst, *args):
+        r = getattr(make_struct(cls, inst), name)(*args)
+        return list(r) if as_list else r
+    return fn
+
+
+def slot_bytes(rng, size):
+    r = rng.random()
+    if r < 0.3:
+        return b"\xff" * (3 * size)
+    if r < 0.4:
+        return bytes(rng.choice([0xFF, 0xFF, rng.randrange(256)]) for _ in range(3 * size))
+    return rbytes(rng, 3 * size)
+
+
+def mangle(rng, msg):
+    r = rng.random()
+    if r < 0.6:
+        return msg
+    if r < 0.8:
+        return msg[:rng.randrange(len(msg) + 1)]
+    if r < 0.9:
+        return msg + rbytes(rng, rng.randrange(1, 5))
+    return rbytes(rng, rng.randrange(0, 12))
+
+
+DATAS = [None, {}, {"x": 1}, {"ecomax_parameters": 5, "y": None}, {"mixer_parameters": 1}, {"thermostat_parameters": 2, "thermostat_profile": 3}]
+
+
+def cases_structparams(rng, quick):
+    from pyplumio.structures.ecomax_parameters import EcomaxParametersStructure as E
+    from pyplumio.structures.mixer_parameters import MixerParametersStructure as M
+    from pyplumio.structures.thermostat_parameters import THERMOSTAT_PARAMETERS, ThermostatParametersStructure as T
+    from pyplumio.utils import ensure_dict
+    n = 25 if quick else 400
+    dicts = [{}, {"a": 1}, {"a": 2, "b": None}, {"b": b"\x01", "c": True, "a": 7}]
+    for _ in range(n):
+        # distinct objects: aliasing between the arguments (`data |= extra` mutates `initial` in place) is not modelled
+        args = [dict(d) if d is not None else None for d in
+                [rng.choice([None] + dicts)] + [rng.choice(dicts) for _ in range(rng.choice([0, 1, 1, 2, 3]))]]
+        yield "ensure_dict", ensure_dict, args, 0
+    yield "ensure_dict", ensure_dict, [{"a": 1}, None], 0
+    yield "ensure_dict", ensure_dict, [5, {"a": 1}], 0
+    plain = Inst("S")
+    for _ in range(n):
+        off = rng.choice([0, 0, 1, 3])
+        start, count = rng.choice([0, 0, 5, 250]), rng.choice([0, 1, 2, 3, 8])
+        body = b"".join(slot_bytes(rng, 1) for _ in range(count))
+        msg = mangle(rng, rbytes(rng, off) + bytes([rng.randrange(256), start, count]) + body + rbytes(rng, rng.choice([0, 0, 2])))
+        yield "EcomaxParametersStructure.decode", method(E, "decode"), [plain, bytearray(msg), off, rng.choice(DATAS)], 0
+        k = rng.choice([0, 3, len(msg), len(msg) + 2])
+        yield "EcomaxParametersStructure._ecomax_parameter", method(E, "_ecomax_parameter", True), \
+            [Inst(f"S_offset=i{k}", {"_offset": k}), bytearray(msg), start, count], 0
+        yield "MixerParametersStructure._mixer_parameter", method(M, "_mixer_parameter", True), \
+            [Inst(f"S_offset=i{k}", {"_offset": k}), bytearray(msg), start, count], 0
+        mixers = rng.choice([0, 1, 2, 3])
+        body = b"".join(slot_bytes(rng, 1) if rng.random() < 0.7 else b"\xff" * 3 for _ in range(count * mixers))
+        msg = mangle(rng, rbytes(rng, off) + bytes([rng.randrange(256), start, count, mixers]) + body + rbytes(rng, rng.choice([0, 0, 2])))
+        yield "MixerParametersStructure.decode", method(M, "decode"), [plain, bytearray(msg), off, rng.choice(DATAS)], 0
+        yield "MixerParametersStructure._mixer_parameters", method(M, "_mixer_parameters", True), \
+            [Inst(f"S_offset=i{k}", {"_offset": k}), bytearray(msg), mixers, start, count], 0
+        # thermostats: T from the owning device; per thermostat range(start, (start + count) // T)
+        th = rng.choice([1, 1, 2, 3])
+        start = rng.choice([0, 0, 1, 2])
+        per = rng.choice([0, 1, 3, 6, len(THERMOSTAT_PARAMETERS), len(THERMOSTAT_PARAMETERS) + 2])
+        count = max(0, min(255, (start + per) * th - start + rng.choice([0, 0, 0, 1])))
+        sizes = [getattr(d, "size", 1) for d in THERMOSTAT_PARAMETERS]
+        idx = range(start, (start + count) // th)
+        body = b"".join(b"".join(slot_bytes(rng, sizes[i] if i < len(sizes) else 1) for i in idx) for _ in range(th))
+        msg = mangle(rng, rbytes(rng, off) + bytes([rng.randrange(256), start, count]) + slot_bytes(rng, 1) + body + rbytes(rng, rng.choice([0, 0, 2])))
+        r = rng.random()
+        if r < 0.1:
+            inst = Inst("Hn", handler=None)
+        elif r < 0.2:
+            inst = Inst("HD", handler={})
+        elif r < 0.3:
+            inst = Inst("HD" + hexs(b"thermostats_available") + "=i0", handler={"thermostats_available": 0})
+        else:
+            tt = th if rng.random() < 0.8 else rng.choice([1, 2, 3, 4])
+            inst = Inst("HD" + hexs(b"other") + "=n," + hexs(b"thermostats_available") + f"=i{tt}",
+                        handler={"other": None, "thermostats_available": tt})
+        yield "ThermostatParametersStructure.decode", method(T, "decode"), [inst, bytearray(msg), off, rng.choice(DATAS)], 0
+        yield "ThermostatParametersStructure._thermostat_parameter", method(T, "_thermostat_parameter", True), \
+            [Inst(f"S_offset=i{k}", {"_offset": k}), bytearray(msg), th, start, count], 0
+        yield "ThermostatParametersStructure._thermostat_parameters", method(T, "_thermostat_parameters", True), \
+            [Inst(f"S_offset=i{k}", {"_offset": k}), bytearray(msg), th, start, count], 0
+    for cls, nm in ((E, "EcomaxParametersStructure"), (M, "MixerParametersStructure"), (T, "ThermostatParametersStructure")):
+        inst = plain if cls is not T else Inst("HD" + hexs(b"thermostats_available") + "=i1", handler={"thermostats_available": 1})
+        for msg, off in ((b"", 0), (b"\x00", 0), (b"\x00\x01", 0), (b"\x00\x00\x02", 0), (b"\x00\x00\x01\x01", 0), (b"\x00\x00\x01\x01", 9),
+                         (b"\x00\x00\x01\x01", -1), (b"\x00\x00\x01\x01\x02\x03\x04\x05\x06\x07", -4), (None, 0), (b"\x00\x00\x01\x01", None)):
+            yield nm + ".decode", method(cls, "decode"), [inst, bytearray(msg) if msg is not None else None, off, None], 0
+
+
+GROUPS = {"frame": cases_frame, "schedule": cases_schedule, "uid": cases_uid, "params": cases_params, "requests": cases_requests,
+          "structparams": cases_structparams}
 
 
 def check(res, rng, tier, groups):
